@@ -110,7 +110,7 @@ CHECKS = {
     "C18": dict(
         category="exploration",
         technique="runtime monitoring: supply-area coverage, copper connectivity and reach from game data on every --power-poles build; canonical logical circuit and user-entity multiset compared with the pole-free build of the same source",
-        text="Programs are compiled with each pole type and without poles under solver schedules; coverage of every electric consumer, one copper grid, copper reach, unchanged logical circuit (canonical form) and unchanged user entities are checked per build; without the option only relay poles may appear. Coverage / single-grid failures on this tree are listed findings; the other clauses are live.",
+        text="Programs are compiled with each pole type and without poles under solver schedules; coverage of every electric consumer, one copper grid, copper reach, unchanged logical circuit (canonical form) and unchanged user entities are checked per build; without the option only relay poles may appear. All clauses are live; the one listed finding is an uncovered consumer that the compiler itself announces ('No free tile for a big power pole near (x, y)').",
         design_ref="DESIGN.md 3 (C18)",
     ),
     "C19": dict(
@@ -170,7 +170,7 @@ def main():
         "engines": [{"name": "fverif", "path": "fverif/", "serves_properties": sorted(CHECKS),
                      "kind_free_text": "runtime monitoring: real compiler driven by generated workloads and injected solver schedules; emitted blueprints executed in a circuit-network model; monitors attached from the harness"}],
         "checks": checks,
-        "notes": "Fix commits in /repo (unguarded, 'fix:'): see known_findings.json 'fixed' list and DESIGN.md 4.",
+        "notes": "Fix commits in /repo (unguarded, 'fix:'): see known_findings.json 'fixed' list and DESIGN.md 8.2; listed findings DESIGN.md 8.3; seeded changes /verif/seeded and DESIGN.md 8.4.",
         "not_applicable": na,
     }
     with open(os.path.join(HERE, "MANIFEST.json"), "w") as f:
